@@ -21,8 +21,8 @@ CLAIMS = {
          "Dispatch clause only: both dispatchers assign the same variables, each once, from their own package and the identically named routine; export rows are identical in shape. Equality of the two compiled variants is NOT decided.",
          "Byte arrays of the natives are not analysed (no tool in the sandbox reads them).",
          "DESIGN.md §3.6 S2, §4 C13"),
- "C14": ("sibling agreement of the two key-lookup paths; effect-freedom of lookup methods",
-         "Thin structural clauses: the indexed and the linear key lookup implement the same duplicate-key policy (first occurrence), and lookup methods are effect-free on their receiver. Whether the native search lands on the right bytes is NOT decided.",
+ "C14": ("sibling agreement of the two key-lookup paths; effect-freedom of lookup methods; grammar-decision parity of the parser and the Preorder traverser",
+         "Thin structural clauses: the indexed and the linear key lookup implement the same duplicate-key policy (first occurrence), and lookup methods are effect-free on their receiver; ast.Preorder's traverser takes the same input-dependent decisions (token-type and delimiter switches, cursor/EOF conditions) as the Parser it mirrors. Whether the native search lands on the right bytes is NOT decided.",
          "native get_by_path/skip are byte arrays; typed accessor values are runtime values.",
          "DESIGN.md §3.6 S5, §4 C14"),
  "C15": ("sibling agreement (duplicate-key policy), must-touch pairing of index maintenance, must-precede guard of mutators, effect-freedom of lookups, index-domain rule (physical slots vs logical length)",
@@ -49,9 +49,9 @@ CLAIMS = {
          "Go/generator side only: every load of the JIT decoder templates through (IP)(IC) is covered by a bound check since IC last moved; every raw *(*byte) read in ast/decode.go and utils/skip.go is dominated by p < end; optdec parses a private copy with >= 64 padding bytes. Reads inside the native routines are NOT decided (byte arrays).",
          "A handler's first access may rely on IC < IL established by the preceding lspace opcode. The natives' own SIMD loads and tails are out of reach of this technique in this sandbox.",
          "DESIGN.md §4 C05"),
- "C06": ("pool typestate with alias tokens, path-sensitive over go/cfg; copy-before-retain instances; output-space budget dataflow over the emitted x86 encoder templates",
-         "Static necessary-condition check: nothing is used after it was put back to a pool and no pooled backing array escapes to the caller; the []byte entry points copy before retaining; every store / native writer of the JIT encoder is covered by a reservation (check_size) since RL last advanced. That natives honour the capacity they are told is NOT decided.",
-         "Alias summaries: append/HTMLEscape/CorrectWith/Quote results alias their first argument; runtime-sized reservations (check_size_r) are trusted to be sized correctly. F-15 (json.Number ignores CopyString) is outside these rules and is documented only.",
+ "C06": ("pool typestate with alias tokens, path-sensitive over go/cfg; copy-before-retain instances; output-space budget dataflow over the emitted x86 encoder templates; input-pointer taint dataflow over the emitted x86 decoder templates (CopyString)",
+         "Static necessary-condition check: nothing is used after it was put back to a pool and no pooled backing array escapes to the caller; the []byte entry points copy before retaining; every store / native writer of the JIT encoder is covered by a reservation (check_size) since RL last advanced; in the JIT decoder templates every register that points into the input is stored or boxed only on paths that tested CopyString off. That natives honour the capacity they are told is NOT decided.",
+         "Alias summaries: append/HTMLEscape/CorrectWith/Quote results alias their first argument; runtime-sized reservations (check_size_r) are trusted to be sized correctly. The optdec half of F-15 (Node.Number slices Parser.Json regardless of CopyString) is outside the emitted templates and is documented only.",
          "DESIGN.md §3.3, §3.2 A1, §4 C06"),
  "C07": ("constant/layout relations and guard-bound agreement on emitted templates; clamp rules on the error-excerpt arithmetic; reset-at-pool-boundary rule; depth-tag rule; recursion-cycle triage over the VTA call graph (SCCs) with a structural depth-guard check",
          "Static necessary-condition check of the guards that turn hostile input into errors: stack bounds equal array sizes in every executor (encoder JIT/VM, jitdec, generic decoder), pooled stacks are reset, nesting is tagged at compile time, error excerpts are clamped for any position; every recursion cycle among sonic functions is reviewed and the input-driven ones must pass a depth guard (compare with MAX_RECURSE, return, increment) on every cycle. Faults inside generated/native code and native termination are NOT decided.",
